@@ -495,6 +495,13 @@ pub fn build_send<'a>(kind: MsgKind, tid: usize, seal: Sealing, payload: u16) ->
     if impure_payload(payload) && seal == Sealing::None {
         let _ = b.add_attribute(&COUNTING_ATTR);
     }
+    // rarely: far more attribute bytes than the 16-bit length field can express (the builder accepts
+    // them; whatever it serialises is what the agent has to transmit, and a request that was given an
+    // integrity attribute is an authenticated request)
+    if payload % 200 == 199 {
+        let _ = b.add_raw_attribute(RawAttribute::new(AttributeType::new(0x7f50), &vec![0x50u8; 40_000]).into_owned());
+        let _ = b.add_raw_attribute(RawAttribute::new(AttributeType::new(0x7f51), &vec![0x51u8; 30_001]).into_owned());
+    }
     let lc = imp::to_impl_creds(&creds(3));
     match seal {
         Sealing::None => {}
@@ -513,7 +520,8 @@ pub fn build_send<'a>(kind: MsgKind, tid: usize, seal: Sealing, payload: u16) ->
         let _ = b.add_fingerprint();
     }
     let bytes = b.build();
-    (b, bytes, seal != Sealing::None)
+    let sealed = b.has_attribute(AttributeType::new(MI)) || b.has_attribute(AttributeType::new(MI256));
+    (b, bytes, sealed)
 }
 
 /// Response / incoming bytes made with the reference encoder (independent of the builder).
